@@ -180,9 +180,10 @@ def rec_g2(g, qs, tau, seed, jitter, cells=None):
     rec["grid_uniform"] = al.ticks(_slim(aa.Grid2D.uniform(shape_native=(h, w), pixel_scales=ps, origin=org).slim, 2), "grid_uniform")
     rec["grid_all_false"] = al.ticks(_slim(mask.derive_grid.all_false.slim, 2), "grid_all_false")
 
-    # continuous pixel coordinates -> scaled -> continuous pixel coordinates (quarters of a pixel, also outside the frame)
+    # continuous pixel coordinates -> scaled -> continuous pixel coordinates: quarters of a pixel in [0.25, H-0.75] x
+    # [0.25, W-0.75], which is inside the frame whether pixel centres sit at half-integers or at integers
     k = min(max(n, 4), 24)
-    p4 = np.stack([rng.integers(-4, 4 * h + 5, size=k), rng.integers(-4, 4 * w + 5, size=k)], axis=1)
+    p4 = np.stack([rng.integers(1, 4 * h - 2, size=k), rng.integers(1, 4 * w - 2, size=k)], axis=1)
     gp = aa.Grid2D.no_mask(values=p4 / 4.0, shape_native=(1, k), pixel_scales=1.0)
     sc = geo.grid_scaled_2d_from(grid_pixels_2d=gp)
     rec["p4"] = p4.astype(int).tolist()
@@ -348,7 +349,8 @@ def random_tasks(rng, n_geo, n_shape, seed):
         par = {"kind": kind, "cy": cy, "cx": cx, "r": sorted(rr), "e1": e1, "e2": e2}
         if not fits32(g, par):
             continue
-        tau = float(np.exp(rng.uniform(np.log(1e-3), np.log(50.0))))
+        # tau >= 1e-2 keeps every pixel centre further than 1e-9 (in scaled units) from every radius
+        tau = float(np.exp(rng.uniform(np.log(1e-2), np.log(50.0))))
         ts.append(("shape", g, par, tau, made))
         made += 1
     return ts
@@ -403,7 +405,7 @@ def _bounds(quick):
             "masks": [
                 dict(mask_shapes=[(7, 6)], mask_scale_pairs=[(4, 12), (8, 8)], mask_centres=[(0, 0), (-3, 1)],
                      fixed_r2=[9, 129, 1201]),
-                dict(mask_shapes=[(4, 5), (3, 3), (5, 2), (1, 4), (2, 2)], mask_scale_pairs=[(4, 4), (4, 12), (12, 8)],
+                dict(mask_shapes=[(4, 5), (3, 3), (5, 2), (1, 4), (2, 2)], mask_scale_pairs=[(4, 4), (12, 8)],
                      mask_centres=[(0, 0), (2, -4), (-3, 1)], fixed_r2=[9, 129, 1201]),
             ],
             "random_geometries": 60, "random_shape_masks": 150,
@@ -413,10 +415,10 @@ def _bounds(quick):
                          sizes1d=list(range(1, 13))),
         "masks": [
             dict(mask_shapes=[(7, 6), (6, 7)], mask_scale_pairs=[(4, 4), (4, 12), (12, 4), (8, 12)],
-                 mask_centres=[(0, 0), (2, -4), (-3, 1), (5, 6), (-8, -2)], fixed_r2=[9, 129, 1201, 3001]),
+                 mask_centres=[(0, 0), (-3, 1), (5, 6), (-8, -2)], fixed_r2=[9, 129, 1201, 3001]),
             dict(mask_shapes=[(4, 5), (5, 4), (3, 3), (5, 2), (1, 4), (2, 2), (6, 6), (5, 5), (1, 1)],
-                 mask_scale_pairs=[(4, 4), (4, 12), (12, 4), (8, 12), (12, 12)],
-                 mask_centres=[(0, 0), (2, -4), (-3, 1), (5, 6), (-8, -2)], fixed_r2=[9, 129, 1201, 3001]),
+                 mask_scale_pairs=[(4, 4), (4, 12), (12, 4), (8, 12)],
+                 mask_centres=[(0, 0), (2, -4), (-3, 1), (5, 6)], fixed_r2=[9, 129, 1201, 3001]),
         ],
         "random_geometries": 600, "random_shape_masks": 2500,
     }
@@ -428,7 +430,7 @@ def run(ctx):
     quick = ctx.quick
     b = _bounds(quick)
     ctx.bounds = {"unit": "half-tick u; pixel scales multiples of 4u, origins multiples of 2u, queries odd",
-                  "tick_lengths": [t for _, t in TAUS] + ["random in [1e-3, 50] for the random instances"], **b}
+                  "tick_lengths": [t for _, t in TAUS] + ["random in [1e-3, 50] (geometry) / [1e-2, 50] (constructors) for the random instances"], **b}
 
     # 1. TLC on the bounded machine (the geometry family and the constructor families run side by side)
     jobs = [("MC_Geometry_g", mc_defs(**b["geometry"]))]
@@ -476,7 +478,8 @@ def run(ctx):
         if not fits32(g, r["par"]):
             raise core.MachineryError(f"constructor instance exceeds 32-bit arithmetic: {r}")
         for k, (_, tau) in enumerate(TAUS):
-            if quick and k != n % 3:
+            # one tick length per constructor call in the quick tier, two in the thorough tier (rotating)
+            if (quick and k != n % 3) or (not quick and k == n % 3):
                 continue
             tasks.append(("shape", g, r["par"], tau, n + k))
     n_exh = len(tasks)
